@@ -111,6 +111,18 @@ CHECKS["C12"] = _core("C12", "programs with one fault planted under 0..4 nested 
                       "compared with the error's trace and with the lines quoted in the rendered message",
                       "DESIGN.md §5 C12", "Compile-error positions are checked in C10's block-prefix part.")
 
+CHECKS["C09"] = dict(
+    category="model_checking",
+    text="Lexer.tla is an accounting machine over the token stream: it advances a ledger (offset, line, column, code-line flag, "
+         "string depth) by the TEXT of each token (facts computed by the harness from the input) and checks the lexer's own "
+         "report against it: Contiguous, CharBoundaries, LinesAreNewlineCounts, ColumnZeroAfterBreak, column continuity, "
+         "IndentIsLeadingWhitespace (code lines), ModeDiscipline, Lossless, Termination. Inputs: every string of length <= 3 "
+         "(quick) / 4 (thorough) over a 23-symbol alphabet chosen to reach every lexer mode, random long strings, strings of "
+         "mode-reaching fragments, the corpus.",
+    design_ref="DESIGN.md §5 C09",
+    note="Exhaustive within the length bound and alphabet. Column units are not fixed by the property and are not compared.",
+    technique="trace validation of real token streams against an explicit TLA+ accounting machine; bounded-exhaustive inputs",
+    engine="lexer")
 CHECKS["C13"] = dict(
     category="model_checking",
     text="Iter.tla gives every adaptor two readings: the mathematical definition on a finite sequence, and a small state "
@@ -193,6 +205,8 @@ def main():
         "engines": [
             {"name": "chunkcfg", "path": "spec/ChunkCfg.tla", "serves_properties": ["C05"],
              "kind_free_text": "TLA+ abstract interpreter whose input is real decoded bytecode; TLC explores every path"},
+            {"name": "lexer", "path": "spec/Lexer.tla", "serves_properties": ["C09"],
+             "kind_free_text": "TLA+ ledger machine folded over real token streams"},
             {"name": "iter", "path": "spec/Iter.tla", "serves_properties": ["C13"],
              "kind_free_text": "TLA+ adaptor state machines checked against sequence definitions; predictions replayed"},
             {"name": "modules", "path": "spec/Modules.tla", "serves_properties": ["C18"],
